@@ -16,6 +16,7 @@ Helper lemmas (`y02_…`): `Proofs/Balance.lean`.
 -/
 import StubGen.Proofs.Balance
 import StubGen.Proofs.ShortestMem
+import StubGen.Proofs.ImportTargets
 
 namespace StubGen.C02a
 
@@ -207,6 +208,24 @@ theorem module_package_is_own_or_reexporter (env : Env) (m : Module) :
   · split
     · right; exact ⟨kv, hkv, r, hr, h⟩
     · left; rfl
+
+/-- towards the import block: the path `_add_to_imports` registers for a request `q` — `q` itself, the dotted id of the class
+    of the package it resolves to, or `<re-exporting package>.<class name>` — is a bracket-free qualified name when `q` is one
+    and the `/`-segments of the class ids and of the ids of the re-exporting modules are convertible names … -/
+theorem import_target_balanced (env : Env) (q : String) (hq : pathBal q = true)
+    (hcls : ∀ c ∈ env.api.classes, sm_idBal c.id = true)
+    (hre : ∀ kv ∈ env.api.reexportMap, ∀ r ∈ kv.2, sm_idBal r.id = true) :
+    pathBal (q11_target env q) = true := it_target_bal env q hq hcls hre
+
+/-- … hence ONE registration step keeps the import set bracket-free.  (`himp` of `module_closed_partial` is this invariant at
+    the end of the module; what is not yet derived is that every request the generator makes — the qualified names inside
+    the types and the superclasses — is bracket-free, a condition on the `qname`s of the API.) -/
+theorem import_registration_keeps_balance (env : Env) (q : String) (st st' : St) (u : Unit)
+    (h : addToImports env q st = .ok (u, st')) (hq : pathBal q = true)
+    (hcls : ∀ c ∈ env.api.classes, sm_idBal c.id = true)
+    (hre : ∀ kv ∈ env.api.reexportMap, ∀ r ∈ kv.2, sm_idBal r.id = true)
+    (hst : ∀ imp ∈ st.imports, pathBal imp = true) :
+    ∀ imp ∈ st'.imports, pathBal imp = true := it_addToImports_keeps env q st st' u h hq hcls hre hst
 
 /-- the same through `callGenerator` (which only resets the state first) -/
 theorem stub_closed_partial (env : Env) (m : Module) (st st' : St) (text pkg : String)
